@@ -130,6 +130,36 @@ def real_tokens(repo, block):
     t, fired = rulesmod.apply_rules(raw, extra_rules(block["opts"]))
     if fired.get("RX-miss"):
         raise LostAnchor("item %r: a per-item replacement rule no longer matches" % block["key"])
+    frag = block["opts"].get("fragment")
+    if frag:
+        # a contiguous run of statements of the body: from the first occurrence of the token sequence `start` to the
+        # first `;` at the same bracket depth after the first occurrence of the token `end_after` that follows it.
+        # What is dropped (the statements before and after) is stated in the overlay next to the item.
+        st = frag["start"].split()
+        a = None
+        for i in range(len(t) - len(st) + 1):
+            if t[i:i + len(st)] == st:
+                a = i
+                break
+        if a is None:
+            raise LostAnchor("item %r: fragment start %r not found" % (block["key"], frag["start"]))
+        j = a
+        while j < len(t) and t[j] != frag["end_after"]:
+            j += 1
+        if j >= len(t):
+            raise LostAnchor("item %r: fragment end marker %r not found" % (block["key"], frag["end_after"]))
+        depth = 0
+        while j < len(t):
+            if t[j] in ("(", "[", "{"):
+                depth += 1
+            elif t[j] in (")", "]", "}"):
+                depth -= 1
+                if depth < 0:
+                    raise LostAnchor("item %r: fragment end not found at statement level" % block["key"])
+            elif t[j] == ";" and depth == 0:
+                break
+            j += 1
+        t = t[a:j + 1]
     line = src.count("\n", 0, it.toks[it.lo].start) + 1
     return t, fired, it, line
 
@@ -318,7 +348,7 @@ def build_unit(repo, overlay_path, out_path):
         if not changed:
             body = open_annotations(b["text"])
         else:
-            body = transplant(b["text"], new_toks, it.kind)
+            body = transplant(b["text"], new_toks, "fragment" if b["opts"].get("fragment") else it.kind)
             if wrap:
                 body = "\n".join("    " + l for l in body.split("\n"))
             report["changed"].append({"key": b["key"], "path": b["path"]})
@@ -326,6 +356,9 @@ def build_unit(repo, overlay_path, out_path):
                   "changed": changed, "rules": fired, "emitted_owner": b["opts"].get("impl_header"), "emitted_name": b["opts"].get("name"),
                   "assumed": "verifier::external_body" in b["text"]}
         report["items"].append(origin)
+        if b["opts"].get("fragment"):
+            # synthetic signature around the extracted statements; the overlay text opens the body with its contract
+            body = "    " + b["opts"]["wrap_fn"] + "\n" + body + "\n    }"
         if wrap:
             hdr = owner if b["opts"].get("impl_header") is None else b["opts"]["impl_header"]
             emit(hdr + " {", {"kind": "wrap"})
